@@ -83,6 +83,7 @@ pub enum SAct {
     Fresh(SDl),
     CancelNth(usize),
     DupNth(usize),
+    DupNthD(usize, SDl),
     OpenAllGates,
 }
 
@@ -680,6 +681,12 @@ async fn run_inner(cfg: &Cfg, out: &mut Outcome) {
                             let v = vms();
                             sh.borrow_mut().ev.push(Ev::End { v, step });
                             tlog.push("  stream -> End".into());
+                            {
+                                let m = st.borrow();
+                                if m.dirty && !m.failed {
+                                    out.viol("C10", "server-ended-before-flush", format!("the request stream ended while {} written responses were still unflushed", m.unflushed()));
+                                }
+                            }
                             st.borrow_mut().on_task_finished_orderly();
                             ended = true;
                             srv = None; // the channel is dropped
@@ -792,6 +799,12 @@ async fn run_inner(cfg: &Cfg, out: &mut Outcome) {
                 if let Some(seq) = injected_reqs.get(n) {
                     let id = metas[seq].id;
                     inject(&st, &sh, &mut metas, &mut next_seq, &mut injected_reqs, PeerMsg::Req { id, d: SDl::Ms(10_000) });
+                }
+            }
+            SAct::DupNthD(n, d) => {
+                if let Some(seq) = injected_reqs.get(n) {
+                    let id = metas[seq].id;
+                    inject(&st, &sh, &mut metas, &mut next_seq, &mut injected_reqs, PeerMsg::Req { id, d });
                 }
             }
             SAct::Inject(m) => {
@@ -1088,7 +1101,8 @@ fn gen_peer_msg(
     }
     // (execute() hides the hand-over, so a duplicate could not be told from a fresh request there)
     if k < cfg.cancel_pct + cfg.dup_pct && !certain.is_empty() && cfg.mode == Mode::Requests {
-        return PeerMsg::Req { id: *rng.pick(&certain), d: SDl::Ms(10_000) };
+        // the duplicate may carry any deadline (it must be ignored, deadline included)
+        return PeerMsg::Req { id: *rng.pick(&certain), d: *rng.pick(&[SDl::Ms(10_000), SDl::Ms(20), SDl::Ms(3), SDl::Past]) };
     }
     if k < cfg.cancel_pct + cfg.dup_pct + cfg.reuse_pct && !completed.is_empty() {
         // id reused only after completion (its response was written)
@@ -1321,12 +1335,15 @@ fn oracles(
     let _ = E::Certain;
     let mut eof_seen_at: Option<usize> = None;
     let mut outside_quantifier = false;
+    let mut last_in_was_noop_cancel = false;
+    let mut must_refuse: Vec<usize> = vec![];
     let mut last_was_at_limit_blocked = false;
     let mut idle_f6: Vec<(usize, u64, bool)> = vec![];
     for (i, e) in ev.iter().enumerate() {
         match e {
             Ev::In { seq, kind, id, v, .. } => {
                 if *kind == "req" {
+                    last_in_was_noop_cancel = false;
                     v_read.insert(*seq, *v);
                     let certain = yielded
                         .iter()
@@ -1361,10 +1378,17 @@ fn oracles(
                     }
                     if !dup_certain {
                         pending_read = Some((*seq, certain, possible));
+                        if let Some(l) = limit {
+                            if certain >= l && !dup_possible {
+                                must_refuse.push(*seq);
+                            }
+                        }
                     }
                 } else {
+                    last_in_was_noop_cancel = true;
                     if let Some(q) = yielded.iter().rev().find(|q| life[q].id == *id && !ended_set.contains(q)).cloned() {
                         ended_set.insert(q);
+                        last_in_was_noop_cancel = false;
                     }
                 }
             }
@@ -1503,12 +1527,25 @@ fn oracles(
                 // C02-style: readable input ignored (not when the limiter legitimately holds back)
                 if *inbox > 0 && !f6 && stream_err.is_none() {
                     out.viols.push(Viol::new("C02", "server-readable-input-ignored", format!("idle at step {step}: {inbox} messages are readable but the channel is not runnable")));
+                    if last_in_was_noop_cancel {
+                        out.viols.push(Viol::new("C04", "noop-cancel-stalled-channel", format!("idle at step {step}: after a cancellation for an unknown or finished request the channel stopped reading ({inbox} messages stay unread)")));
+                    }
                 }
             }
             _ => {}
         }
     }
     let _ = last_was_at_limit_blocked;
+    // C12: a request that had to be refused (L certainly in flight when it was read) gets its one
+    // throttle response (unless a transport fault was injected)
+    if cfg.fault.is_none() {
+        for sq in must_refuse.iter() {
+            let l = &life[sq];
+            if l.responses.iter().all(|r| !r.1) && l.yielded.is_none() && !outside_quantifier {
+                out.viols.push(Viol::new("C12", "refused-without-response", format!("request seq {sq} (id {}) was read while the limit was certainly reached, was not executed, and never received its throttle response (stream error: {:?})", l.id, stream_err)));
+            }
+        }
+    }
     // ---------------- per-request rules
     let any_idle_after = |i: usize| ev[i..].iter().any(|x| matches!(x, Ev::Idle { .. }));
     for (seq, l) in life.iter() {
